@@ -780,7 +780,7 @@ class Interp:
                 i = self.ctx.choose(len(glist), "class-split")
                 o.cands = glist[i]
                 return self.obj_getattr(o, name, node)
-        if isinstance(first, (pytypes.FunctionType, property, classmethod, staticmethod)):
+        if isinstance(first, (pytypes.FunctionType, property, classmethod, staticmethod)) or type(first).__name__ == "_lru_cache_wrapper":
             return self.class_attr(o, o.cands[0], first, name)
         if isinstance(first, pytypes.MemberDescriptorType) or first is MISSING or o.lazy and name in instance_fields(o.cands[0]):
             if o.lazy:
@@ -810,6 +810,8 @@ class Interp:
             return SFunc(st.__func__, self_v=SFunc(cls))
         if isinstance(st, staticmethod):
             return SFunc(st.__func__)
+        if type(st).__name__ == "_lru_cache_wrapper":
+            st = st.__wrapped__
         return SFunc(st, self_v=o)
 
     def setattr(self, v, name, val, node=None):
@@ -845,6 +847,8 @@ class Interp:
                 live = live.__func__
             if live is _object_noop:
                 return NONE
+            if type(live).__name__ == "_lru_cache_wrapper" and isinstance(getattr(live, "__wrapped__", None), pytypes.FunctionType):
+                live = live.__wrapped__  # functools.lru_cache: same result as the wrapped function
             if isinstance(live, pytypes.FunctionType):
                 return self.call_function(live, args, kwargs, node)
             if isinstance(live, type):
@@ -2358,7 +2362,7 @@ def in_repo_class(cls):
 def _attr_kind(st):
     if st is MISSING:
         return "missing"
-    if isinstance(st, (pytypes.FunctionType, property, classmethod, staticmethod)):
+    if isinstance(st, (pytypes.FunctionType, property, classmethod, staticmethod)) or type(st).__name__ == "_lru_cache_wrapper":
         return "code"
     return "data"
 
